@@ -27,7 +27,7 @@ META = {
             "receive no line; every enumerated history (<=4 ops, quick 3, plus simulated longer ones) is replayed on a real program "
             "directory and Runtime, observing the running version through a version-stamped gauge.",
     "note": "Unreadable files (open errors), symlinks and a program path that is a single file are not in the history alphabet.",
-    "technique": "TLA+ spec + TLC exhaustive/simulated directory histories replayed into the real runtime (direction A)",
+    "technique": "TLA+ spec + TLC exhaustive/simulated directory histories replayed into the real runtime (direction A); thorough: hook traces of the repository's runtime/program-load tests validated by spec/TraceRuntime.tla (direction B)",
     "design_ref": "DESIGN.md 5/C26, Appendix A.4",
 }
 FAM = "C26"
@@ -85,6 +85,9 @@ def run(ctx):
     nsim, depth = (3000, 6) if th else (150, 5)
     jobs.insert(1, job("sim", lambda: rtlib.model(ctx, FAM, depth, invs=INVS, emit=True, simulate=nsim, depth=depth * 30 + 5,
                                                   seed=ctx.seed * 17 + 3, label="C26-sim", timeout=1500)))
+    if th:
+        # direction B: the repository's own runtime / program-load tests, recorded with the hooks on
+        jobs.append(lambda: rtlib.direction_b(ctx, "C26"))
     rtlib.parallel(jobs)
     rtlib.check_coverage(out["prop3"] if th else out["prop"], FAM)
     binary = out["bin"]
